@@ -10,7 +10,7 @@ FR = gens.HTML_ALPHA + ['<a>', '</a>', '<b c="d>e">', '</b>', '<br>', '<i/>', '<
 VOID = ['br', 'img', 'input', 'hr', 'meta', 'link']
 # the documented script types whose body is raw text (pinned copy of html_matcher.utils.default_special['script'])
 SCRIPT_TYPES = ['', 'text/javascript', 'application/x-javascript', 'javascript', 'typescript', 'ts', 'coffee', 'coffeescript']
-PAIRED = ['div', 'p', 'span', 'a', 'ul', 'li', 'b', 'x-y', 'ns:t', 'section', 'h1', 'em', 'table', 'A', 'Br']
+PAIRED = ['div', 'p', 'span', 'a', 'ul', 'li', 'b', 'x-y', 'ns:t', 'section', 'h1', 'em', 'table', 'A', 'Br', '\u00d6l', 'a\u036fb']
 
 
 # ------------------------------------------------------------------------------------------------- documents with ground truth
@@ -44,7 +44,7 @@ def gen_doc(rnd, xml, budget=14, unclosed=0):
         n = rnd.choice([0, 0, 1, 1, 2, 3])
         for _ in range(n):
             emit(rnd.choice([' ', '  ', '\n\t', '\r\n', '\r\n  ']))
-            name = rnd.choice(['id', 'class', 'href', 'data-x', 'v:on', 'checked', 'x', '[ng]', '(click)', '#ref', '*if'])
+            name = rnd.choice(['id', 'class', 'href', 'data-x', 'v:on', 'checked', 'x', '[ng]', '(click)', '#ref', '*if', '\u00d6k', 'da\u036fta'])
             ns = pos[0]; emit(name); ne = pos[0]
             k = rnd.random()
             if k < .2:
@@ -320,7 +320,12 @@ def run(case, prop):
             try:
                 try: match(s, pos, {'xml': xml, 'special': {}})          # the same source under another `special` table right before: nothing of it may be remembered
                 except Exception: pass
+                import types as _ty
+                if pos % 3 == 0:
+                    ro_ = _ty.MappingProxyType({'xml': xml})          # the options as a read-only mapping: the same answers
+                    m_ = match(s, pos, ro_); o_ = balanced_outward(s, pos, ro_)
                 m = match(s, pos, shared_opt[xml]); o = balanced_outward(s, pos, shared_opt[xml]); i = balanced_inward(s, pos, shared_opt[xml])
+                if pos % 3 == 0 and (sm(m_) != sm(m) or [full(x) for x in o_] != [full(x) for x in o]): viol.append('options-type| match / balanced_outward(%d) answer differently when the options are a read-only mapping' % pos)
                 if shared_opt[xml] != {'xml': xml}: viol.append('options-changed| the matcher changed the options dictionary of its caller: %r' % (shared_opt[xml],)); shared_opt[xml] = {'xml': xml}
                 out += ' | %s ; %s ; %s' % (sm(m), ' '.join(sm(x) for x in o), ' '.join(sm(x) for x in i))
                 if prop == 'C16': viol += oracle_C16(s, evl, xml, pos, m, o, i)
